@@ -407,3 +407,25 @@ def diff_streams(ctx: Ctx, stream: str, requests: list[str], impl: list[str], ca
     ctx.count(f"{stream}:requests", len(requests))
     ctx.count(f"{stream}:disagreements", nd)
     return replies
+
+
+# -- watchdog ---------------------------------------------------------------------------------------------------------------
+class Hang(BaseException):
+    """the code under test (or a walk over what it built) did not return: a corrupted link chain can make `_last_descendant`, an
+    iterator or `extract` loop for ever. BaseException, so that the library's own `except Exception` clauses do not swallow it."""
+
+
+def arm(seconds: float):
+    """(re)start the watchdog: raise Hang in the main thread after `seconds` of wall time"""
+    import signal
+
+    def _h(sig, frm):
+        raise Hang(f"no return within {seconds:g} s")
+    signal.signal(signal.SIGALRM, _h)
+    signal.setitimer(signal.ITIMER_REAL, seconds)
+
+
+def disarm():
+    import signal
+    signal.setitimer(signal.ITIMER_REAL, 0)
+
